@@ -20,6 +20,7 @@ func nfc(s string) string { return norm.NFC.String(s) }
     modifies nothing
     ensures result != nil && *result != nil
     ensures (*result).Kind() == self.Kind()
+    ensures @unshared-root fresh(result)
 @*/
 
 /*@ template for (self Value*) IsEqual
@@ -191,10 +192,14 @@ func shallowWF(v Value) bool {
 
 /*@ func (self ValueObject) IsEqual
     ensures @same-keys ret1 == nil && ret0 ==> len(self.FieldsInternal) == len(other.(ValueObject).FieldsInternal)
+    ensures @every-key-matched ret1 == nil && ret0 ==> forall k string in keys(self.FieldsInternal) :: haskey(other.(ValueObject).FieldsInternal, k)
+    loop 1 invariant forall k string in keys(self.FieldsInternal) :: visited(k) ==> haskey(otherObj.FieldsInternal, k)
 @*/
 
 /*@ func (self ValueAnyObject) IsEqual
     ensures @same-keys ret1 == nil && ret0 ==> len(self.FieldsInternal) == len(other.(ValueAnyObject).FieldsInternal)
+    ensures @every-key-matched ret1 == nil && ret0 ==> forall k string in keys(self.FieldsInternal) :: haskey(other.(ValueAnyObject).FieldsInternal, k)
+    loop 1 invariant forall k string in keys(self.FieldsInternal) :: visited(k) ==> haskey(otherObj.FieldsInternal, k)
 @*/
 
 /*@ func (self ValueInt) Clone
@@ -213,15 +218,23 @@ func shallowWF(v Value) bool {
     requires self.Values != nil
     ensures @copy fresh(result) && (*result).(ValueList).Values != nil && fresh((*result).(ValueList).Values) && len(*(*result).(ValueList).Values) == len(*self.Values)
     ensures @unshared cap(*(*result).(ValueList).Values) == 0 || fresh(*(*result).(ValueList).Values)
+    ensures @deep forall i in 0..len(*self.Values) :: fresh((*(*result).(ValueList).Values)[i])
+    loop 1 invariant len(newValues) == lenSelf && lenSelf == len(*self.Values) && (cap(newValues) == 0 || fresh(newValues))
+    loop 1 invariant forall j in 0..rangeindex() :: fresh(newValues[j])
 @*/
 
 /*@ func (self ValueObject) Clone
     ensures @copy fresh(result) && fresh((*result).(ValueObject).FieldsInternal)
+    ensures @deep forall k string in keys((*result).(ValueObject).FieldsInternal) :: fresh((*result).(ValueObject).FieldsInternal[k])
+    ensures @every-key-copied forall k string in keys(self.FieldsInternal) :: haskey((*result).(ValueObject).FieldsInternal, k)
+    loop 1 invariant fresh(clonedFields) && forall k string in keys(clonedFields) :: fresh(clonedFields[k])
+    loop 1 invariant forall k string in keys(self.FieldsInternal) :: visited(k) ==> haskey(clonedFields, k)
 @*/
 
 /*@ func (self ValueOption) Clone
     requires shallowWF(self)
     ensures @copy fresh(result) && (((*result).(ValueOption).Inner == nil) == (self.Inner == nil))
+    ensures @deep self.Inner != nil ==> fresh((*result).(ValueOption).Inner)
 @*/
 
 /*@ func (self ValueRange) Clone
